@@ -465,11 +465,11 @@ def request_cap(n, eff, passes):
     return 64 + 4 * passes * (-(-n // max(1, eff)) + 1)
 
 
-def is_type_refusal(err, families):
-    """a parameter that is not a plain Python int (or nothing) was refused with a clean error: the property does not
-    promise that such a value is accepted"""
+def is_type_refusal(err, families, requests, allowed=1):
+    """a parameter that is not a plain Python int (or nothing) was refused with a clean error before reading got under way
+    (at most the requests for a first chunk were made): the property does not promise that such a value is accepted"""
     return (any(f not in ("int", "default") for f in families) and isinstance(err, (TypeError, ValueError, OverflowError))
-            and not isinstance(err, RunawayRequests))
+            and not isinstance(err, RunawayRequests) and requests <= allowed)
 
 
 def signature(base, meta):
@@ -908,7 +908,8 @@ def history_cases(ctx, readers, terms, metas, idx):
             ctx.bump("history-op:%s" % o[0])
         spec["trace"] = [dict(op=p["op"], requests=p["seg"][:12], how=p["how"]) for p in prims][:24]
         if err is not None:
-            if is_type_refusal(err, families):
+            first = (min(len(groups), eff) + 1 if src == "parquet" else 1) + sum(1 for o in hist if o[0] in ("probe", "create"))
+            if is_type_refusal(err, families, len(log), first + (terminal == "create")):
                 ctx.bump("refused:%s-reader:chunksize=%s:%s" % (src, cst, type(err).__name__))
                 continue
             ctx.fail(signature("c18-pass-never-ends" if isinstance(err, RunawayRequests) else "c18-raises:%s" % type(err).__name__, spec),
@@ -1120,10 +1121,14 @@ def run(ctx):
             if mode == "centers" and isinstance(err, (ValueError, RuntimeError)) and is_empty_patch_refusal(err, mp):
                 ctx.bump("skipped_empty_patch")
                 continue
-            if is_type_refusal(err, families):
+            rows = [(l[1], l[2]) for l in log if l[0] == "rows" and l[1] is not None and l[2] is not None]
+            if is_type_refusal(err, families, len(log)):
                 ctx.bump("refused:%s:chunksize=%s,probe_size=%s,patch_num=%s:%s" % (src, cst, probe[0], pnum[0], type(err).__name__))
                 continue
-            rows = [(l[1], l[2]) for l in log if l[0] == "rows" and l[1] is not None and l[2] is not None]
+            try:
+                rows = [(int(a), int(b)) for a, b in rows]
+            except (TypeError, ValueError, OverflowError):
+                pass
             if isinstance(err, RunawayRequests):
                 bad = first_bad_request(rows, n, eff_cs)
                 if bad is None:      # the cap of the harness, not a request, ended the run: nothing is shown
@@ -1246,7 +1251,7 @@ def run(ctx):
             ctx.bump("param-family:%s%s" % (families[0], "/beyond-range" if pspec["beyond_range"] else ""))
         if perr is not None:
             ctx.count(key=("parquet", n, cs, rg, cst), kind="parquet/raised")
-            if is_type_refusal(perr, families):
+            if not chunks and is_type_refusal(perr, families, len(reqs), min(len(groups), eff_cs) + 1):
                 ctx.bump("refused:parquet:chunksize=%s:%s" % (cst, type(perr).__name__))
                 continue
             ctx.fail(signature("c18-pass-never-ends" if isinstance(perr, RunawayRequests) else "c18-raises:%s" % type(perr).__name__, pspec),
@@ -1339,7 +1344,7 @@ def run(ctx):
             if mode == "centers" and isinstance(perr, (ValueError, RuntimeError)) and is_empty_patch_refusal(perr, mp):
                 ctx.bump("skipped_empty_patch")
                 continue
-            if is_type_refusal(perr, families):
+            if not marks and is_type_refusal(perr, families, len(reqs), min(len(groups), eff_cs) + 1):
                 ctx.bump("refused:parquet:chunksize=%s:%s" % (cst, type(perr).__name__))
                 continue
             ctx.fail(signature("c18-pass-never-ends" if isinstance(perr, RunawayRequests) else "c18-raises:%s" % type(perr).__name__, spec),
@@ -1462,7 +1467,7 @@ def run(ctx):
             if mode == "create" and isinstance(rerr, ValueError) and "cannot exceed number of records" in str(rerr):
                 ctx.bump("refused:random:probe_larger_than_sample")       # a probe size below 10 per patch means 100000 * sqrt(patches)
                 continue
-            if is_type_refusal(rerr, families):
+            if is_type_refusal(rerr, families, len(sizes), 2 if mode == "create" else 1):
                 ctx.bump("refused:random:chunksize=%s,probe_size=%s:%s" % (cst, probe[0], type(rerr).__name__))
                 continue
             ctx.fail(signature("c18-pass-never-ends" if isinstance(rerr, RunawayRequests) else "c18-raises:%s" % type(rerr).__name__, spec),
